@@ -108,6 +108,72 @@ def nested_formula(rng, nts):
     return f"{q1}({q2}(any(str(z) == str(x) for z in *{s1}) and str(y) {cmp_} str(x) for y in *{s1}) for x in *{s2})"
 
 
+def verdict_vector(cs, t):
+    out = []
+    for c in cs:
+        try:
+            f_ = c.fitness(t)
+            out.append((bool(f_.success), int(f_.solved), int(f_.total)))
+        except Exception as e:
+            out.append("raises " + type(e).__name__)
+    return out
+
+
+def edit_phase(fan, fresh_cs, kept, rng, res):
+    """in-place edits of evaluated trees: children exchanged for children of equal total size, children swapped, a leaf re-labelled"""
+    from fandango.language.tree import DerivationTree
+    from fandango.constraints.repetition_bounds import RepetitionBoundsConstraint
+    cs = [c for c in fan.constraints if not isinstance(c, RepetitionBoundsConstraint)]
+    fcs = [c for c in fresh_cs if not isinstance(c, RepetitionBoundsConstraint)]
+    trees = [t.deepcopy(copy_parent=False) for t in kept[:4]]
+    for t in trees:
+        verdict_vector(cs, t)           # fills the caches and the structural hashes
+        hash(t)
+        nodes = [n for n in [t] + list(t.descendants()) if n.symbol.is_non_terminal and n.children]
+        if not nodes:
+            continue
+        n = rng.choice(nodes)
+        kind = rng.randrange(3)
+        try:
+            if kind == 0 and len(n.children) >= 2:
+                ks = list(n.children)
+                i, j = rng.sample(range(len(ks)), 2)
+                ks[i], ks[j] = ks[j], ks[i]
+                n.set_children(ks)
+                what = "two children swapped"
+            elif kind == 1:
+                donors = [d for o in trees if o is not t for d in [o] + list(o.descendants())
+                          if d.symbol == n.symbol and d.size() == n.size() and str(d) != str(n)]
+                if not donors:
+                    continue
+                d = rng.choice(donors).deepcopy(copy_parent=False)
+                n.set_children(list(d.children))
+                what = "children replaced by those of an equally large subtree"
+            else:
+                leaves = [x for x in t.descendants() if x.symbol.is_terminal]
+                others = [y for o in trees for y in o.descendants() if y.symbol.is_terminal]
+                if not leaves or not others:
+                    continue
+                x = rng.choice(leaves)
+                y = rng.choice(others)
+                if str(y) == str(x):
+                    continue
+                x.symbol = y.symbol
+                what = "a leaf re-labelled"
+        except Exception:
+            res.bump("edit_raised")
+            continue
+        res.bump("edits_compared")
+        a = verdict_vector(cs, t)
+        for c2 in fcs:
+            clear_caches(c2)
+        b = verdict_vector(fcs, t)
+        if [x[0] if isinstance(x, tuple) else x for x in a] != [x[0] if isinstance(x, tuple) else x for x in b]:
+            return {"edit": what, "tree_after_edit": str(t), "search_fitness": None, "fresh_fitness": None, "search_verdicts": [str(x) for x in a],
+                    "fresh_verdicts": [str(x) for x in b], "constraint_kinds": [type(c).__name__ for c in cs], "after_in_place_edit": True}
+    return None
+
+
 def run_worker(args):
     seed, n_runs = args
     import sys
@@ -140,6 +206,8 @@ def run_worker(args):
             if self._soft_constraints or state["bad"] is not None or state["calls"] > 400:
                 return ret
             state["calls"] += 1
+            if len(state.setdefault("kept", [])) < 6 and individual.size() < 60:
+                state["kept"].append(individual)
             if was_cached:
                 state["cached_hits"] += 1
             fitness, failing, _ = ret
@@ -198,6 +266,14 @@ def run_worker(args):
             res.bump("run_raised_" + type(e).__name__)
         finally:
             Evaluator.evaluate_individual = orig
+        # edits: trees that were evaluated (hash and constraint caches filled) are edited in place through the public tree API,
+        # then the long-lived constraint objects must judge the edited tree as never-remembering ones do
+        if not state["bad"]:
+            bad_e = edit_phase(fan, fresh_cs, state.get("kept", []), rng, res)
+            if bad_e:
+                bad_e["spec"] = full
+                bad_e["seed"] = seed
+                viols.append(bad_e)
         res.bump("runs")
         res.bump("evaluations_compared", state["calls"])
         res.bump("evaluator_cache_hits", state["cached_hits"])
@@ -223,6 +299,9 @@ def correspondence(res):
     sigs = {k["signature"] for k in known}
     rest = []
     for v in viols:
+        if v.get("after_in_place_edit"):
+            rest.append(v)
+            continue
         kinds = v.get("constraint_kinds", [])
         diff_at = [i for i, (a, b) in enumerate(zip(v["search_verdicts"], v["fresh_verdicts"])) if a != b]
         if diff_at and all(i < len(kinds) and kinds[i] == "RepetitionBoundsConstraint" for i in diff_at) and "repetition-bounds-read-origin-repetitions" in sigs:
